@@ -119,6 +119,7 @@ type qobs struct {
 	Logs    []obsLog         `json:"logs"`
 	Writes  []obsWrite       `json:"writes"`
 	Located bool             `json:"located"`
+	ViaECS  bool             `json:"via_ecs"` // db.EcsLocation on the request's ECS option produced the location
 	Trace   []string         `json:"trace"`
 	Ret     int              `json:"ret"`
 	RetErr  bool             `json:"ret_err"`
@@ -820,7 +821,7 @@ func buildReq(q qspec) *dns.Msg {
 
 // classify derives the response class through the public db.Reader API, on a copy
 // of the request, before the handler sees it.
-func (s *server) classify(q qspec, req *dns.Msg) (cl qclass, cacheKey string, weighted bool) {
+func (s *server) classify(q qspec, req *dns.Msg) (cl qclass, cacheKey string, weighted bool, viaECS bool) {
 	cl = qclass{ReaderOK: s.loaded, Qtype: q.Qtype, CacheOn: s.cacheOn, Cache: "miss", UnpackOK: true, Loc: "nil", WriteErr: q.WriteFail}
 	st := request.Request{W: &capWriter{ResponseWriterCustomRemote: test.ResponseWriterCustomRemote{RemoteIP: q.IP}, tcp: q.TCP}, Req: req}
 	cl.Do = st.Do()
@@ -838,6 +839,13 @@ func (s *server) classify(q qspec, req *dns.Msg) (cl qclass, cacheKey string, we
 		return
 	}
 	defer rd.Close()
+	// where does the location come from?  (FindLocation: the ECS lookup wins unless it
+	// finds nothing or location 0,0)
+	if o := db.FindECS(req.Copy()); o != nil {
+		if l1, err := rd.EcsLocation(packed, o); err == nil && l1 != nil && l1.LocID != [2]byte{0, 0} {
+			viaECS = true
+		}
+	}
 	_, loc, err := rd.FindLocation(packed, req, st.IP())
 	if err != nil {
 		cl.Loc = "err"
@@ -949,7 +957,7 @@ func (s *server) serve(q qspec) (qclass, qobs) {
 		time.Sleep(time.Duration(q.SleepMs) * time.Millisecond)
 	}
 	req := buildReq(q)
-	cl, cacheKey, weighted := s.classify(q, req.Copy())
+	cl, cacheKey, weighted, viaECS := s.classify(q, req.Copy())
 
 	w := &capWriter{ResponseWriterCustomRemote: test.ResponseWriterCustomRemote{RemoteIP: q.IP}, tcp: q.TCP, fail: q.WriteFail}
 	s.logger.w, s.logger.req, s.logger.logs = w, req, nil
@@ -975,6 +983,7 @@ func (s *server) serve(q qspec) (qclass, qobs) {
 		ob.Trace = []string{}
 	}
 	ob.Located = contains(trace, "located")
+	ob.ViaECS = viaECS
 	// the recorded IncrementCounter calls must be what the real Stats exported
 	calls := map[string]int64{}
 	for _, k := range s.stats.calls {
